@@ -34,29 +34,19 @@ Proof.
   exists 0%nat. split; [lia|discriminate].
 Qed.
 
-(* [[0,0,0],[5,0,0]]: idx = [0] points at the dropped zero row *)
-Lemma base_index_refuted_zero :
-  exists flat : list (list Z),
-    let '(out, idx, inv) := zbase flat in
-    StronglySorted le idx /\
-    exists k, (k < length out)%nat /\ nth (nth k idx 0%nat) flat [] <> nth k out [].
-Proof.
-  exists [[0;0;0];[5;0;0]]. vm_compute. split; [repeat constructor|].
-  exists 0%nat. split; [lia|discriminate].
-Qed.
+(* the former witnesses of the repaired clauses, now regression examples:
+   [[0,0,0],[5,0,0]]: idx = [1] is the position in the flattened input;
+   [[3,0,0],[1,0,0],[3,0,0],[2,0,0]]: inv = [0,1,0,2] indexes the returned
+   entries [3..],[1..],[2..] *)
+Lemma zbase_zero_example : zbase [[0;0;0];[5;0;0]] = ([[5;0;0]], [1%nat], [0%nat]).
+Proof. vm_compute. reflexivity. Qed.
+Lemma zbase_order_example :
+  zbase [[3;0;0];[1;0;0];[3;0;0];[2;0;0]]
+  = ([[3;0;0];[1;0;0];[2;0;0]], [1;3;0]%nat, [0;1;0;2]%nat).
+Proof. vm_compute. reflexivity. Qed.
 
-(* ---- base class: inverse array *)
-Lemma base_inverse_refuted_order :
-  exists flat : list (list Z),
-    let '(out, idx, inv) := zbase flat in
-    filter (fun e => negb (zzero e)) flat = flat /\
-    exists j, (j < length flat)%nat /\
-              keq zcmp (nth (nth j inv 0%nat) out []) (nth j flat []) = false.
-Proof.
-  exists [[3;0;0];[1;0;0];[3;0;0];[2;0;0]]. vm_compute. split; auto.
-  exists 0%nat. split; [lia|reflexivity].
-Qed.
-
+(* ---- base class: inverse array -- zero rows have no entry in inv, so it
+   cannot reconstruct the flattened input when a row is dropped *)
 Lemma base_inverse_refuted_zero :
   exists flat : list (list Z),
     let '(out, idx, inv) := zbase flat in length inv <> length flat.
@@ -71,32 +61,30 @@ Definition zmiller (sym : bool) (flat : list (list Z)) :=
   miller_unique zcmp zcmp (fun r => r) zzero (fun r => r) [] zokey sym flat.
 
 (* [[1,0,0],[0,1,0],[-1,0,0],[0,0,1]] *)
-Lemma miller_index_refuted :
-  exists flat : list (list Z),
-    let '(out, idx) := zmiller true flat in
-    exists k, (k < length out)%nat /\ nth (nth k idx 0%nat) flat [] <> nth k out [].
-Proof.
-  exists [[1;0;0];[0;1;0];[-1;0;0];[0;0;1]]. vm_compute.
-  exists 0%nat. split; [lia|discriminate].
-Qed.
-
 Lemma miller_order_refuted :
   exists flat : list (list Z),
     fst (zmiller true flat) <> nubk zcmp zokey flat.
 Proof. exists [[1;0;0];[0;1;0];[-1;0;0];[0;0;1]]. vm_compute. discriminate. Qed.
 
-(* ---- Rotation.unique on an empty input ignores return_index/return_inverse *)
-Lemma rot_arity_refuted :
-  exists (ri rv : bool), rot_unique_arity (@nil (list Z)) ri rv <> obj_unique_arity ri rv.
-Proof. exists true, true. vm_compute. discriminate. Qed.
+(* former witness of the repaired index clause: idx = [3,1,0] are the
+   positions of the returned [001],[010],[100] in the flattened input *)
+Lemma zmiller_index_example :
+  zmiller true [[1;0;0];[0;1;0];[-1;0;0];[0;0;1]]
+  = ([[0;0;1];[0;1;0];[1;0;0]], [3;1;0]%nat).
+Proof. vm_compute. reflexivity. Qed.
 
-Lemma rot_arity_outside {E} (flat : list E) ri rv :
-  flat <> [] -> rot_unique_arity flat ri rv = obj_unique_arity ri rv.
-Proof. destruct flat; [congruence|reflexivity]. Qed.
+(* ---- Rotation.unique returns as many values as the flags ask for, empty
+   input included *)
+Lemma rot_arity {E} (flat : list E) ri rv : rot_unique_arity flat ri rv = obj_unique_arity ri rv.
+Proof. destruct flat, ri, rv; reflexivity. Qed.
+
+Lemma rot_unique_nil {E K} (cmp : K -> K -> comparison) (key : E -> K) (d : E) :
+  rot_unique cmp key d [] = ([], [], []).
+Proof. reflexivity. Qed.
 
 (* ---- non-vacuity helpers *)
 Lemma zbase_outside_example :
-  let flat := [[1;0;0];[2;0;0];[1;0;0];[3;0;0]] in
-  obj_data (fun r => r) zzero flat = map (fun r => r) flat /\
+  let flat := [[0;0;0];[1;0;0];[2;0;0];[1;0;0];[0;0;0];[3;0;0]] in
+  obj_data (fun r => r) zzero flat <> map (fun r => r) flat /\
   StronglySorted le (snd (fst (zbase flat))).
-Proof. vm_compute. split; auto. repeat constructor. Qed.
+Proof. vm_compute. split; [discriminate|]. repeat constructor. Qed.
